@@ -128,6 +128,27 @@ def build(ast, heap):
         return Fill(b(ast['kids'][0]))
     if op == 'auto':
         return Auto(b(ast['kids'][0]))
+    if op == 'inspect':
+        kw = dict(recursive=ast['rec'], echo=ast['echo'])
+        if ast['bp']:
+            kw['breakpoint'] = heap.fns[ast['bp']]
+        if ast['pm']:
+            kw['post_mortem'] = heap.fns[ast['pm']]
+        return glom.Inspect(b(ast['kids'][0]), **kw)
+    if op == 'set':
+        try:
+            items = [b(k) for k in ast['kids']]
+            return frozenset(items) if ast['frozen'] else set(items)
+        except TypeError:
+            raise Unconstructible('unhashable spec inside a set')
+    if op == 'sget':
+        return getattr(glom.S, ast['name']) if ast['form'] == '.' else glom.S[ast['name']]
+    if op == 'sset':
+        return glom.S(**{n: b(k) for n, k in zip(ast['names'], ast['kids'])})
+    if op == 'aset':
+        return getattr(glom.A, ast['name'])
+    if op == 'specs':
+        return Spec(b(ast['kids'][0]), scope={n: heap.val(v) for n, v in ast['scope']})
     if op == 'ref':
         return Ref(ast['name'], b(ast['kids'][0])) if ast['def'] else Ref(ast['name'])
     if op == 'coalesce':
@@ -168,28 +189,52 @@ def build(ast, heap):
 
 
 # ---- run the real library and project what C03 names ---------------------------------------------
-def observe(cells, root, ast):
+NO_OPTS = {'dflt': [], 'skipexc': [], 'scope': []}
+
+
+def observe(cells, root, ast, opts=NO_OPTS):
     log = []
+    out = []
     heap = codec.Heap(cells, codec.PLAIN, fns=mk_fns(log))
     spec = build(ast, heap)
     target = heap.val(root)
+    kw = {}
+    if opts['dflt']:
+        kw['default'] = heap.val(opts['dflt'][0])
+    if opts['skipexc']:
+        ex = tuple(EXC[c] for c in opts['skipexc'][0])
+        kw['skip_exc'] = ex[0] if len(ex) == 1 else ex
+    if opts['scope']:
+        kw['scope'] = {n: heap.val(v) for n, v in opts['scope']}
+
+    def report(*a):
+        # Inspect prints '---', 'path:  ' <list>, 'target:' <target>, 'output:' <result>; the printed
+        # objects themselves are kept (and projected like call arguments), wording is not compared
+        if a and a[0] == 'target:':
+            out.append(('in', a[1]))
+        elif a and a[0] == 'output:':
+            out.append(('out', a[1]))
+    glom.core.print = report          # module-level name shadows the builtin for glom.core only
     try:
-        res = glom.glom(target, spec)
+        res = glom.glom(target, spec, **kw)
         ok, exc = True, ''
     except RecursionError:
         return {'skip': 'div'}
     except Exception as e:
         ok, exc, res = False, codec.exc_class_name(e), None
+    finally:
+        del glom.core.print
     fresh = {'cells': [], 'ids': {}}
     plog = []
     for name, a, kw in log:
         plog.append({'fn': name, 'args': [heap.project(x, fresh) for x in a],
                      'kw': [[{'k': 'str', 's': k}, heap.project(v, fresh)] for k, v in kw.items()]})
+    pout = [{'k': k, 'v': heap.project(x, fresh)} for k, x in out]
     v = heap.project(res, fresh) if ok else {'k': 'none'}
-    return {'ok': ok, 'v': v, 'exc': exc, 'log': plog, 'cells': fresh['cells'], 'skip': ''}
+    return {'ok': ok, 'v': v, 'exc': exc, 'log': plog, 'out': pout, 'cells': fresh['cells'], 'skip': ''}
 
 
-FIELDS = (('ok', 'outcome'), ('exc', 'error class'), ('log', 'call log'), ('v', 'value'),
+FIELDS = (('ok', 'outcome'), ('exc', 'error class'), ('log', 'call log'), ('out', 'Inspect reports'), ('v', 'value'),
           ('cells', 'value graph'))
 
 
@@ -219,7 +264,7 @@ def worker(states):
             out['skipped'][pred['skip']] = out['skipped'].get(pred['skip'], 0) + 1
             continue
         try:
-            obs = observe(TARGET_HEAP, root, ast)
+            obs = observe(TARGET_HEAP, root, ast, st['opts'])
         except Unconstructible:
             out['skipped']['unconstructible'] = out['skipped'].get('unconstructible', 0) + 1
             continue
@@ -231,7 +276,7 @@ def worker(states):
         why = 'model says terminating, library hit RecursionError' if obs['skip'] else compare(pred, obs)
         if why:
             res['bad'].append(dict(why=why, case=dict(universe=st['fam'], heap=TARGET_HEAP, root=root, spec=ast,
-                                                      pred=pred, obs=obs)))
+                                                      opts=st['opts'], pred=pred, obs=obs)))
         else:
             out['ok'] += 1
             if len(res['samples']) < 1 and pred['ok'] and pred['log'] and pred['cells'] and c03_gen.depth(ast) >= 3:
@@ -255,12 +300,16 @@ def record(check, n, seed):
         cells, root = c03_gen.rand_target(rng)
         gen = c03_gen.Gen(rng, cells, lambda ast, tgt_obj, heap: glom.glom(tgt_obj, build(ast, heap)), mk_fns)
         ast = gen.spec(root, rng.randint(2, 5))
-        obs = observe(cells, root, ast)
+        opts = gen.top_opts()
+        try:
+            obs = observe(cells, root, ast, opts)
+        except Unconstructible:
+            continue
         if obs['skip']:
             guide_fail += 1
             continue
         obs.pop('skip')
-        rows.append(dict(heap=cells, root=root, spec=ast, obs=obs))
+        rows.append(dict(heap=cells, root=root, spec=ast, opts=opts, obs=obs))
     signal.alarm(0)
     rejects = vlib.validate_rows(check, 'Trace_C03', rows, 'random-specs')
     skipped = 0
@@ -306,14 +355,15 @@ def match_finding(f, case):
 # ---- universes (defined in spec/MC_C03.tla, operator Conf) ------------------------------------------
 FAMILIES = {
     'quick': ['q_nest', 'q_pairs', 'q_leaves', 'q_coal1', 'q_coal2', 'q_calls', 'q_modes', 'q_ref',
-              'q_coaln1', 'q_coaln2', 'q_chains'],
+              'q_coaln1', 'q_coaln2', 'q_chains', 'q_inspect', 'q_scope', 'q_sets', 'q_top'],
     'thorough': ['t_nest', 't_nest5', 't_leaves', 't_coal', 't_calls', 't_callnest', 't_modes', 't_ref',
-                 'q_coaln1', 'q_coaln2', 't_chains'],
+                 'q_coaln1', 'q_coaln2', 't_chains', 't_inspect', 't_scope', 't_sets', 't_top'],
 }
 # wrong mechanism variants (GlomAuto env.mut) and the small universe on which TLC must report
 # the law violated
 MUTANTS = [('tuple_skip_breaks', 'm_chain'), ('coalesce_eager', 'm_coal'), ('dict_stop_skips', 'm_dict'),
-           ('invoke_first', 'm_invoke')]
+           ('invoke_first', 'm_invoke'), ('inspect_twice', 'm_inspect'), ('top_default_any', 'm_top'),
+           ('set_as_list', 'm_set'), ('sset_not_forward', 'm_scope')]
 
 
 def tla_set(names):
@@ -396,8 +446,8 @@ def main(tier, seed):
             res = vlib.run_tlc('MC_C03', cfg='MC_C03_base',
                                constants=dict(Families=tla_set([fam]), Mutant='"%s"' % name))
             mut[name] = res['violated']
-            if res['violated'] != 'Laws':
-                raise vlib.MachineryError('spec mutant %s: expected TLC to report Laws violated on %s, got %r'
+            if res['violated'] not in ('Laws', 'TopLaw'):
+                raise vlib.MachineryError('spec mutant %s: expected TLC to report Laws / TopLaw violated on %s, got %r'
                                           % (name, fam, res['violated']))
         check.extra['spec_mutants_detected_by_tlc'] = mut
     check.assumptions += [
@@ -426,9 +476,11 @@ def replay(path):
     case = v['case']
     if 'row' in case:
         case = dict(heap=case['row']['heap'], root=case['row']['root'], spec=case['row']['spec'],
-                    pred=None, recorded=case['row']['obs'])
-    obs = observe(case['heap'], case['root'], case['spec'])
+                    opts=case['row'].get('opts', NO_OPTS), pred=None, recorded=case['row']['obs'])
+    opts = case.get('opts', NO_OPTS)
+    obs = observe(case['heap'], case['root'], case['spec'], opts)
     print('spec   :', c03_gen.show(case['spec']))
+    print('top-level:', json.dumps(opts))
     print('target :', json.dumps(case['root']), 'in heap', json.dumps(case['heap']))
     print('observed:', json.dumps(obs))
     if case.get('pred'):
@@ -438,6 +490,6 @@ def replay(path):
         return 1 if why else 0
     tmp = vlib.Check(PROP, 'quick', 0)
     obs.pop('skip', None)
-    rej = vlib.validate_rows(tmp, 'Trace_C03', [dict(heap=case['heap'], root=case['root'], spec=case['spec'], obs=obs)], 'replay')
+    rej = vlib.validate_rows(tmp, 'Trace_C03', [dict(heap=case['heap'], root=case['root'], spec=case['spec'], opts=opts, obs=obs)], 'replay')
     print('verdict:', 'rejected: %s' % rej[0][1] if rej else 'accepted by the specification')
     return 1 if rej else 0
